@@ -159,6 +159,14 @@ Theorem round_first_granted : forall r tl, rs r < re r ->
 Proof. exact round_first. Qed.
 Print Assumptions round_first_granted.
 
+(* ... and every denied request conflicts with a granted request of the
+   round (no NoDup hypothesis needed). *)
+Theorem round_denied_has_cause : forall rq, Forall (fun r => rs r < re r) rq ->
+  forall q, In (q, false) (round nil rq) ->
+    exists p, In (p, true) (round nil rq) /\ req_conflict p q = true.
+Proof. exact round_denied_conflicts. Qed.
+Print Assumptions round_denied_has_cause.
+
 (* non-vacuity: a round with a grant, a denial and a compatible shared grant *)
 Example round_example :
   round nil (mkReq 1 true 3 5 :: mkReq 2 true 2 6 :: mkReq 3 false 7 9 :: nil)
